@@ -75,10 +75,10 @@ Ltac np_match :=
              assert (H : np r); [| destruct r; simpl in H |- *; try contradiction; auto]
          end.
 
-Lemma compile_member_np : forall rec d k v,
-  (forall x, sub_of v x -> np (rec x)) -> np (compile_member rec d k v).
+Lemma compile_member_np : forall rec d root k v,
+  (forall x, sub_of v x -> np (rec x)) -> np (compile_member rec d root k v).
 Proof.
-  intros rec d k v Hrec.
+  intros rec d root k v Hrec.
   assert (Hsub : np (rec v)) by (apply Hrec; left; reflexivity).
   assert (Hlist : forall ne,
             np (match v with
@@ -125,28 +125,28 @@ Proof.
   - simpl. pose proof (list_sum_in (fun kv => jsize (snd kv)) o (k, x) Hin) as H. simpl in H. lia.
 Qed.
 
-Lemma compile_node_np : forall d j, np (compile_node d j).
+Lemma compile_node_np : forall d root j, np (compile_node d root j).
 Proof.
   intros d.
-  assert (H : forall n j, (jsize j <= n)%nat -> np (compile_node d j)).
-  { induction n as [| n IH]; intros j Hsz.
+  assert (H : forall n root j, (jsize j <= n)%nat -> np (compile_node d root j)).
+  { induction n as [| n IH]; intros root j Hsz.
     - destruct j; simpl in Hsz; lia.
     - destruct j as [| b | q | s | l | o]; try exact I.
       + destruct b; exact I.
-      + change (compile_node d (JObj o)) with
-          (match seq_res (map (fun kv => compile_member (fun x => res_map fst (compile_node d x)) d (fst kv) (snd kv)) o) with
+      + change (compile_node d root (JObj o)) with
+          (match seq_res (map (fun kv => compile_member (fun x => res_map fst (compile_node d false x)) d root (fst kv) (snd kv)) o) with
            | Ok cks => let l := List.concat cks in Ok (assemble d l, l)
            | Err e => Err e
            | Panic w => Panic w
            | Diverge => Diverge
            end).
-        assert (Hs : np (seq_res (map (fun kv => compile_member (fun x => res_map fst (compile_node d x)) d (fst kv) (snd kv)) o))).
+        assert (Hs : np (seq_res (map (fun kv => compile_member (fun x => res_map fst (compile_node d false x)) d root (fst kv) (snd kv)) o))).
         { apply map_np. intros [k v] Hin. simpl. apply compile_member_np.
           intros x Hx. apply res_map_np. apply IH.
           pose proof (sub_of_size v x Hx) as H1.
           pose proof (list_sum_in (fun kv => jsize (snd kv)) o (k, v) Hin) as H2. simpl in H2, Hsz. lia. }
         destruct (seq_res _); simpl in Hs |- *; auto. }
-  intros j. apply (H (jsize j)). lia.
+  intros root j. apply (H (jsize j)). lia.
 Qed.
 
 Lemma detect_draft_np : forall j, np (detect_draft j).
@@ -160,10 +160,10 @@ Lemma compile_root_np : forall j, np (compile_root j).
 Proof.
   intros j. unfold compile_root.
   pose proof (detect_draft_np j) as Hd. destruct (detect_draft j) as [d | | |]; simpl in Hd; try contradiction; try exact I.
-  pose proof (compile_node_np d j) as Hc. destruct (compile_node d j) as [[sc cks] | | |]; simpl in Hc; try contradiction; try exact I.
+  pose proof (compile_node_np d true j) as Hc. destruct (compile_node d true j) as [[sc cks] | | |]; simpl in Hc; try contradiction; try exact I.
   cbv zeta.
-  match goal with |- np (if ?b then _ else _) => destruct b end; [exact I |].
-  match goal with |- np (if ?b then _ else _) => destruct b end; exact I.
+  repeat match goal with |- np (if ?b then _ else _) => destruct b; [exact I |] end.
+  exact I.
 Qed.
 
 (* ValidateData (model): always Ok or a classified error *)
